@@ -464,6 +464,10 @@ def sorted_symseq(ip, seq, key, reverse):
     for fact in f(out.term):
       ctx.assume(fact)
   out.perm_facts = list(seq.perm_facts)
+  out.sub_facts = list(getattr(seq, 'sub_facts', []))
+  for f in out.sub_facts:
+    for fact in f(out.term):
+      ctx.assume(fact)
   out.sorted_of = (seq, pi, inv)
   return out
 
